@@ -112,6 +112,14 @@ CLAIMS = {
         "forwarding off X-Forwarded-For/-Host/-Proto describe the connection and client values are discarded; with it on the client chain "
         "is kept and the address appended. Tied by generated targets/headers/bodies through the full handler chain.",
    note=TB + "Modelled stdlib: net/url (escape, unescape, validEncoded, setPath, EscapedPath, RequestURI, ParseRequestURI), ReverseProxy hop-by-hop and forwarding header handling, Transport's User-Agent rule."),
+
+'C20': dict(engine='cli', technique='Lean 4 proof (decision tables stated outright) + exhaustive/sampled black-box runs of the built binary diffed against the model',
+   text="Theorems: option value = flag, else the prefixed variable if set, else the bare one if set, else the default, where a malformed "
+        "value of the variable that was found yields the default (no fall-through); deploy is refused before any RPC exactly when TLS "
+        "has no non-empty host, or TLS lacks the root path, or a body-size limit lacks its buffering flag (iff, all inputs); the "
+        "forward-headers default; list prints exactly the reply's services sorted by name. Tied by running the binary over the finite "
+        "tables, a connection-counting stub socket, and a real proxy with loopback targets (exit codes, list output bytes).",
+   note=TB + "Partial: cobra/pflag and process exit are runtime; strconv is modelled."),
 }
 
 NA_REASON = {}
